@@ -40,6 +40,11 @@ extern "C" int ftruncate64(int fd, off_t len) {
 
 using namespace util::stream;
 
+static std::string TmpDir() {
+  const char *d = getenv("C16_TMPDIR");
+  return std::string(d ? d : "/var/tmp");
+}
+
 static uint64_t ReadLE(const uint8_t *p, unsigned w) {
   uint64_t v = 0;
   for (unsigned i = 0; i < w; ++i) v |= (uint64_t)p[i] << (8 * i);
@@ -112,7 +117,7 @@ template <class Compare, class Combine> static void RunSort(const Case &c, const
     const std::vector<uint8_t> &data, const std::vector<uint64_t> &counts, std::vector<uint8_t> &out,
     std::string &mret, std::string &lazy_used) {
   SortConfig sc;
-  sc.temp_prefix = "/var/tmp/kpu-kenlm-verif/c16tmp_";
+  sc.temp_prefix = TmpDir() + "/c16tmp_";
   sc.buffer_size = c.buf;
   sc.total_memory = c.tot;
   ChainConfig cc(c.rs, c.cbc, c.cmem);
@@ -253,7 +258,7 @@ static void RunCase(std::istringstream &in) {
 
 // Drive the real Offsets class on a temp file.
 static void RunOffsets(const std::string &arg) {
-  util::scoped_fd fd(util::MakeTemp("/var/tmp/kpu-kenlm-verif/c16off_"));
+  util::scoped_fd fd(util::MakeTemp(TmpDir() + "/c16off_"));
   Offsets o(fd.get());
   std::stringstream ss(arg); std::string tok;
   while (std::getline(ss, tok, ',')) if (!tok.empty()) o.Append(strtoull(tok.c_str(), NULL, 10));
